@@ -133,7 +133,8 @@ CHECKS = {
        "reference through `type` and through a shortcut with the rule on the type; inline enum with two entries; `or` over type names "
        "where a name recurs through a type choice; the five built-in string formats over a table of 37 clearly valid / clearly "
        "invalid candidates, at the root, as a member and inside a registered type; a scalar under `type` with every combination of "
-       "const and nullable; the regex rule over 9 patterns x 11 candidates with escapes on both sides. Accepted iff the "
+       "const and nullable; the regex rule over 9 patterns x 11 candidates with escapes on both sides; strings that spell a literal "
+       "(\"null\", \"true\") under minLength x nullable. Accepted iff the "
        "oracle accepts; min/max rejections carry the constraint-violation code.",
   note="Outside the claim: regex rule and formats on SYMBOLIC subjects (the validators are host code), a null example under "
        "`nullable: true` with another type and an integer literal under type float (left open), exponents in rule "
@@ -222,7 +223,7 @@ CHECKS = {
        "type-like keys, additionalProperties (false / a registered type) seen from the SAME Schema Object only, allOf as 'instance of "
        "every referenced conversion', two `or` alternatives of the same type, null examples under `or`, key shortcuts whose type is an "
        "escaped string, an alias or a choice, a type recursive through a nullable required member, const inside an `or` alternative, "
-       "and references resolved to the conversions of the registered types (17 shapes, symbolic scalars). "
+       "a key shortcut followed by a literal key, and references resolved to the conversions of the registered types (18 shapes, symbolic scalars). "
        "`pattern`: for 10 concrete regex rules with escapes the keyword is one JSON string that decodes to exactly the rule's "
        "expression and matches the example.",
   note="Outside the claim: the JSON TEXT of the conversion (encoding/json reflection is not executed: well-formedness, key escaping, "
@@ -266,7 +267,8 @@ CHECKS = {
        "letters and notes symbolic; each of the ten models must be accepted on some path) are printed "
        "canonically and with ONE layout dimension changed (thorough: plus a second one out of line ends, /* */ style, user comments) - LF/CRLF/CR, indentation, blanks after colons, "
        "blanks before annotations, blanks between a rule name and its colon, blanks before the closing brace of a rule set, the spelling "
-       "of the bar of a type choice (AST compared with blanks inside reference texts removed), list items of a rule on their own lines, // vs "
+       "of the bar of a type choice (AST compared with blanks inside reference texts removed), list items of a rule on their own lines, "
+       "blanks after the annotation introducer, blanks between the brackets of an empty container, // vs "
        "/* */, quoted vs bare rule names, # line comments and ### block comments, leading and "
        "trailing blank lines - with @u registered or not: same verdict and error code; when accepted the same AST, example and "
        "used-type list. A second harness (package jsoac) takes the same pairs with notes from a fixed list, also with /* */ notes "
